@@ -210,4 +210,39 @@ Definition head_ok (h : head) (hd : list str) : bool :=
 Definition tail_ok (V : verb) (S : list str) (rest : list str) : bool :=
   match rest with [] => true | c :: _ => stops_all V S c end.
 
+(* ---- content validity of one-token clauses (tables extracted from the branches) ---- *)
+Definition is_upper (c : Z) : bool := (65 <=? c) && (c <=? 90).
+Definition is_lower (c : Z) : bool := (97 <=? c) && (c <=? 122).
+Definition is_digit (c : Z) : bool := (48 <=? c) && (c <=? 57).
+(* str.capitalize() on ASCII: first letter upper, the others lower *)
+Definition capitalize (w : str) : str :=
+  match w with
+  | [] => []
+  | c :: r => (if is_lower c then c - 32 else c) :: map (fun x => if is_upper x then x + 32 else x) r
+  end.
+(* REO_IdentPub  [a-zA-Z] then word characters, ASCII *)
+Definition ident_pub (w : str) : bool :=
+  match w with
+  | [] => false
+  | c :: r => (is_upper c || is_lower c)
+              && forallb (fun x => is_upper x || is_lower x || is_digit x || (x =? 95)) r
+  end.
+Definition valid_body (v : vkind) (b : list str) : bool :=
+  match v with
+  | VAny | VNum => true
+  | VOneOf l => match b with [t] => in_words t l | _ => false end
+  | VOneOfCap l => match b with [t] => in_words (capitalize t) l | _ => false end
+  | VName => match b with [t] => ident_pub t && negb (reserved t) | _ => false end
+  end.
+Definition valid_clause (vt : list (str * vkind)) (cb : clause) : bool :=
+  match lookup (fst cb) vt with Some v => valid_body v (snd cb) | None => true end.
+
+(* the command with an arbitrary per-clause content check: any failing clause is a ParseError *)
+Definition checked (valid : clause -> bool) (o : option (list str * list clause * list str))
+  : option (list str * list clause * list str) :=
+  match o with
+  | Some (h, cs, r) => if forallb valid cs then Some (h, cs, r) else None
+  | None => None
+  end.
+
 End Clauses.
